@@ -412,11 +412,7 @@ def correspond(build, lines, harness_args=(), env=None, canon=None, model_lines=
             stale.append(dict(id=cid, line=line, impl=raw_iv, model=ck[0], spec=None, kind='checker-failed'))
             continue
         gk = hchk.get(cid + '.glue')
-        if gk is not None and gk[0] != raw_iv:
-            # the glue mirror, run on the library's own factorisation, must reproduce the output word for word
-            nglue_bad = True
-            stale.append(dict(id=cid, line=line, impl=raw_iv, model=gk[0], spec=None, kind='impl-differs-from-glue-model'))
-            continue
+        glue_bad = gk is not None and gk[0] != raw_iv
         if canon:
             iv, mv = canon(op, iv), canon(op, mv)
         rec = dict(id=cid, line=line, impl=iv, model=mv, spec=sp[0] if sp else None)
@@ -427,6 +423,12 @@ def correspond(build, lines, harness_args=(), env=None, canon=None, model_lines=
                 rec['kind'] = 'impl-differs-from-spec'
                 spec_viol.append(rec)
                 continue
+        if glue_bad:
+            # the glue / configuration-dependent exact mirror, run on the library's own factorisation resp. with the
+            # build's regime parameters, must reproduce the output word for word (the specification value, where there
+            # is one, has been compared above: this is a stale mirror, not a wrong result)
+            stale.append(dict(id=cid, line=line, impl=raw_iv, model=gk[0], spec=sp[0] if sp else None, kind='impl-differs-from-glue-model'))
+            continue
         if iv != mv:
             rec['kind'] = 'impl-differs-from-model'
             stale.append(rec)
